@@ -14,7 +14,12 @@ The judge is a *monitor* written from the property text.  It reads
 and demands
 * `expired-not-waiting` / `expired-manual` / `expired-early` / `expired-no-offset`   (expire_guard) every proxy that
   becomes `expired` was `waiting`, not manually triggered, belongs to a clock-expire task, and the monitor's clock
-  has reached  point * unit + offset;  `expired-unseen`: a pool member shown `expired` that was not before has an
+  has reached  point * unit + offset.  "Manually triggered" is decided on the spec side too: besides the observed
+  `is_manual_submit` flag the monitor keeps the instances named by `cylc trigger` ops whose job has not been launched
+  since (trigger of an instance whose job is in progress has no effect; the record ends with the launch, when the
+  instance leaves the pool, or at a restart).  The offset is that of the definition IN FORCE: the generated offsets
+  at start-up, replaced by those of the reloaded definition at every successful `reload` op (`spec.variants`) - not
+  the `expire_time` the scheduler keeps;  `expired-unseen`: a pool member shown `expired` that was not before has an
   expiry event (now or earlier: nothing becomes expired behind the monitor's back);
   `job-message-expired` (recorded finding): the same failure when the expiry was caused by a job message with the
   text `expired` (the scheduler treats it like its own clock-expiry message);
@@ -72,25 +77,33 @@ structure Mon where
   expired : List Key := []        -- instances that have expired (and were not triggered again)
   seen : List Key := []           -- instances that have been in the pool at some time
   prevExpired : List Key := []    -- pool members shown `expired` in the previous observation
+  manual : List Key := []         -- instances the operator has triggered (`cylc trigger`) whose job has not been
+                                  -- launched since; forgotten when the instance leaves the pool or the scheduler restarts
+  prevLive : List Key := []       -- pool members shown preparing / submitted / running in the previous observation
+  offsets : List (String × Int) := []   -- the clock-expire offsets of the definition in force (changed by `cylc reload`)
   deriving Inhabited
 
 structure Spec where
   unit : Int
   offsets : List (String × Int)
+  variants : List (String × List (String × Int))   -- reload variants: tag ↦ offsets of that definition
   fromGraph : Bool                -- no generator spec given: expiry times read off the instance graph (ad-hoc runs)
 
 def specOf (i : Json) : Spec :=
   match jField? i "spec" with
   | some sp =>
+    let offs (j : Json) : List (String × Int) := (objPairs j).filterMap fun (k, v) => (jInt? v).map fun o => (k, o)
     { unit := (jIntField? sp "unit").getD 3600,
-      offsets := (objPairs ((jField? sp "offsets").getD Json.null)).filterMap fun (k, v) => (jInt? v).map fun o => (k, o),
+      offsets := offs ((jField? sp "offsets").getD Json.null),
+      variants := (objPairs ((jField? sp "variants").getD Json.null)).map fun (k, v) => (k, offs v),
       fromGraph := false }
-  | none => { unit := 3600, offsets := [], fromGraph := true }
+  | none => { unit := 3600, offsets := [], variants := [], fromGraph := true }
 
-/-- the expiry time of an instance according to the workflow definition: cycle point + offset -/
-def expiryTime (sp : Spec) (g : Graph) (k : Key) : Option Int :=
+/-- the expiry time of an instance according to the workflow definition IN FORCE (`offs`: the offsets of the
+definition loaded last - at start-up or by the latest successful reload): cycle point + offset -/
+def expiryTime (sp : Spec) (offs : List (String × Int)) (g : Graph) (k : Key) : Option Int :=
   if sp.fromGraph then ((g.task? k.2).bind (·.inst? k.1)).bind (·.expire)
-  else (sp.offsets.find? (·.1 == k.2)).map fun e => k.1 * sp.unit + e.2
+  else (offs.find? (·.1 == k.2)).map fun e => k.1 * sp.unit + e.2
 
 def expireKids (g : Graph) (k : Key) : List Key :=
   match (g.task? k.2).bind (·.inst? k.1) with
@@ -109,9 +122,10 @@ def nextParentlessOf (g : Graph) (k : Key) : Option Key :=
 /-- expire_guard on one event -/
 def judgeGuard (sp : Spec) (g : Graph) (m : Mon) (e : Ev) : Option String :=
   if e.frm != "waiting" then some s!"expired-not-waiting: {showKey e.key} became expired from status {e.frm}"
-  else if e.manual then some s!"expired-manual: {showKey e.key} expired although it was manually triggered"
+  else if e.manual || m.manual.contains e.key then
+    some s!"expired-manual: {showKey e.key} expired although it was manually triggered"
   else if e.now != m.now then some s!"clock-mismatch: event of {showKey e.key} at {e.now}, monitor clock {m.now}"
-  else match expiryTime sp g e.key with
+  else match expiryTime sp m.offsets g e.key with
     | none => some s!"expired-no-offset: {showKey e.key} expired but its task has no clock-expire offset"
     | some t => if m.now < t then some s!"expired-early: {showKey e.key} expired at {m.now}, before its expiry time {t}"
                 else none
@@ -147,8 +161,17 @@ def judgeStep (sp : Spec) (g : Graph) (idx : Nat) (op : Json) (ob : Json) (m : M
       if jStrField? op "name" == some "force_trigger_tasks" then
         let ids := ((jArrField? ((jField? op "args").getD Json.null) "tasks").getD []).filterMap fun t =>
           (jStr? t).bind fun s => (parseTaskId s).toOption
-        { m with expired := m.expired.filter fun k => !ids.contains k }
+        -- a trigger takes effect on every id whose job is not already in progress (those are left alone)
+        let fresh := ids.filter fun k => !m.prevLive.contains k && !m.manual.contains k
+        { m with expired := m.expired.filter (fun k => !ids.contains k), manual := m.manual ++ fresh }
       else m
+    | some "reload" =>
+      -- a reload that went through puts the offsets of its definition in force
+      if jBoolField? op "skipped" == some true || jBoolField? op "failed" == some true then m else
+      match (jStrField? op "tag").bind fun t => sp.variants.find? (·.1 == t) with
+      | some v => { m with offsets := v.2 }
+      | none => m
+    | some "restart" => { m with manual := [] }
     | _ => m
   let evs := ((jArrField? ob "exp").getD []).map parseEv
   let launches := keysField ob "launch"
@@ -175,7 +198,11 @@ def judgeStep (sp : Spec) (g : Graph) (idx : Nat) (op : Json) (ob : Json) (m : M
       match nowExpired.find? fun k => !(m.prevExpired.contains k || expd.contains k) with
       | some k => some s!"expired-unseen: {showKey k} is shown expired but no expiry was observed"
       | none => none
-  ({ m with expired := m.expired ++ evs.map (·.key), seen := seenNow, prevExpired := nowExpired },
+  let live := (pool.filter fun t =>
+    jStrField? t "st" == some "preparing" || jStrField? t "st" == some "submitted" || jStrField? t "st" == some "running").map keyOf
+  let pooled := pool.map keyOf
+  ({ m with expired := m.expired ++ evs.map (·.key), seen := seenNow, prevExpired := nowExpired, prevLive := live,
+            manual := m.manual.filter fun k => pooled.contains k && !launches.contains k },
    why.map fun w => s!"{w} (obs {idx})")
 
 def judge (i o : Json) (g : Graph) : Option String :=
@@ -187,7 +214,7 @@ def judge (i o : Json) (g : Graph) : Option String :=
   match obsList o with
   | [] => some "no observation"
   | ob0 :: rest =>
-    let m0 : Mon := { now := now0, seen := (poolOf ob0).map keyOf,
+    let m0 : Mon := { now := now0, seen := (poolOf ob0).map keyOf, offsets := sp.offsets,
                       prevExpired := ((poolOf ob0).filter fun t => jStrField? t "st" == some "expired").map keyOf }
     if !((jArrField? ob0 "exp").getD []).isEmpty then some "expired-early: an expiry during start-up" else
     let rec go (idx : Nat) (m : Mon) : List Json → List Json → Option String
@@ -198,8 +225,17 @@ def judge (i o : Json) (g : Graph) : Option String :=
       | _, _ => none
     go 1 m0 ops rest
 
+/-- runs with features outside the `Sched3Exp` model (limited queues, `cylc reload`) are judged on the real trace
+only: no model output is produced for them (the harness counts them as judged, not as compared) -/
+def judgeOnlyMark : Json := Json.mkObj [("judge_only", Json.bool true)]
+
 def handle (i o : Json) : Except String Reply := do
   if let some r := crashReply? i then return r
+  if jBoolField? i "judge_only" == some true then
+    let g ← parseGraph (← req (jField? i "graph") "graph")
+    match judge i o g with
+    | some w => return { model := judgeOnlyMark, holds := false, why := w }
+    | none => return { model := judgeOnlyMark, holds := true }
   let c ← parseCase i
   match judge i o c.graph with
   | some w => return { model := modelObs c, holds := false, why := w }
